@@ -34,6 +34,7 @@ type project struct {
 	Enums map[string]string `json:"enums,omitempty"` // name -> enum rule text
 	Order []string          `json:"order,omitempty"` // registration order of Types (default: sorted)
 	Self  string            `json:"self,omitempty"`  // when set: the root file is named so and the root is registered as this type too
+	RuleOrder []string      `json:"ruleOrder,omitempty"` // registration order of Enums (default: sorted)
 }
 
 func call(sink callSink, op string, text []byte, texts map[string][]byte, f func() error) (ok bool) {
@@ -147,8 +148,12 @@ func buildProject(p *project) (*jschema.JSchema, error) {
 		rootName = p.Self
 	}
 	root := jschema.New(rootName, p.Root)
+	ruleOrder := p.RuleOrder
+	if ruleOrder == nil {
+		ruleOrder = sortedKeys(p.Enums)
+	}
 	addRules := func(s *jschema.JSchema) error {
-		for _, n := range sortedKeys(p.Enums) {
+		for _, n := range ruleOrder {
 			if err := s.AddRule(n, enum.New(n, p.Enums[n])); err != nil {
 				return err
 			}
